@@ -121,6 +121,26 @@ CLAIMED = {
              "sampled correspondence; dense-time rejection by table + correspondence only.",
         technique="Lean 4 proof (totality corollaries of C01/C02 + structural induction for rejection) + source-derived tables + outcome-class correspondence",
         design="DESIGN.md §4 C17"),
+    "C06": dict(
+        text="Machine-checked proof (Lean 4) that the interface-aware semantics is standard evaluation of the formula in which every "
+             "insensitive predicate (no output variable under output-robustness/-vacuity, no input variable under input-...) is "
+             "replaced by its +-inf-by-satisfaction form (robustness) or by 0 (vacuity), that in_vars/out_vars as built bottom-up by "
+             "the node constructors are the syntactic variable sets, that STANDARD ignores the declarations, and that the offline and "
+             "online IA monitors compute rho of the transformed formula (C01/C02). Correspondence: 5 semantics x random io "
+             "assignments on the real discrete offline/online/pastified and dense offline/online monitors vs the model.",
+        note="Lean kernel + standard axioms; the IA visitors are modelled as the standard visitors with the predicate override "
+             "(a static formula transformation), validated by correspondence; dense time by correspondence against rhoD; tie sampled.",
+        technique="Lean 4 proof (formula transformation + C01/C02) + differential correspondence",
+        design="DESIGN.md §4 C06"),
+    "C11": dict(
+        text="Partial by nature. Machine-checked (Lean 4): two model monitors driven in any interleaving return what each returns "
+             "alone; offline evaluation is a function of (specification, data); the padding of bounded future operators builds a "
+             "fresh list. Decided on the real code by the correspondence stream: deep-copy comparison of every argument of "
+             "evaluate()/update(), repeated evaluate() on one object, random interleavings of 2-3 objects vs each alone, and the "
+             "same result fingerprint under several PYTHONHASHSEED values in sub-processes.",
+        note="Python aliasing and hash-seed dependence are runtime behaviour the model cannot exhibit; they are explored, not proved.",
+        technique="Lean 4 proof of the isolation/repeatability statements on the model + runtime exploration (argument snapshots, interleavings, hash-seed sweep)",
+        design="DESIGN.md §4 C11"),
 }
 
 NOT_YET = {}
